@@ -476,6 +476,15 @@ func (e *Engine) cutLoop(s *State, f *Frame, lp *loop, from *ssa.BasicBlock) {
 	wmL := Sym(e.freshName("wmloop"), SInt)
 	s.assume(Le(s.allocTop(), wmL))
 	s.marks = append(s.marks, callMark{nAtCall: *s.nalloc, wm: wmL, wmpost: wmL})
+	// references held by loop-carried variables were allocated before this iteration started: they
+	// cannot coincide with an object allocated later in the iteration
+	for p, v := range entry.phis {
+		for k, isRef := range e.refSlots(p.Type()) {
+			if isRef && k < len(v) && !v[k].IsConst() {
+				s.assume(Le(v[k], wmL))
+			}
+		}
+	}
 	// 3. assume written invariants
 	e.assumeLoopInvariant(s, f, lp)
 	// TERM: automatic variant for bounded counters
@@ -863,4 +872,34 @@ func (e *Engine) checkIterationEnsures(s *State, f *Frame, lp *loop) {
 		}
 		e.oblige(s, "POST", name, "iteration-ensures "+cl.text, lp.header.Instrs[0].Pos(), r.v[0])
 	}
+}
+
+// refSlots: for each slot of the flattened layout of t, whether it holds an object reference
+// (pointer, map, channel, function, slice array, interface payload).
+func (e *Engine) refSlots(t types.Type) []bool {
+	switch u := t.Underlying().(type) {
+	case *types.Pointer, *types.Map, *types.Chan, *types.Signature:
+		return []bool{true}
+	case *types.Interface:
+		return []bool{false, true}
+	case *types.Slice:
+		return []bool{true, false, false, false}
+	case *types.Struct:
+		l := e.layout(t)
+		if len(l) == 1 && (l[0].Suffix == "#content" || l[0].Suffix == "#opaque") {
+			return []bool{false}
+		}
+		var out []bool
+		for i := 0; i < u.NumFields(); i++ {
+			out = append(out, e.refSlots(u.Field(i).Type())...)
+		}
+		return out
+	case *types.Array:
+		var out []bool
+		for i := int64(0); i < u.Len(); i++ {
+			out = append(out, e.refSlots(u.Elem())...)
+		}
+		return out
+	}
+	return make([]bool, len(e.layout(t)))
 }
